@@ -4,6 +4,7 @@ mod lexrun;
 mod render;
 mod rqjson;
 mod run;
+mod stages;
 mod target;
 mod value;
 
@@ -19,6 +20,7 @@ fn main() {
         "lexrun" => lexrun::main(&args[1..]),
         "target" => target::main(&args[1..]),
         "rqjson" => rqjson::main(&args[1..]),
+        "stages" => stages::main(&args[1..]),
         "lexlist" => lexrun::main_list(&args[1..]),
         "render-ndjson" => {
             // args: <dbset.json> <programs.ndjson> <out.ndjson of {"id","src"}>
